@@ -46,7 +46,16 @@ def c09(ctx):
     ctx.gotest("internal", "^TestVerifC09", race=True, timeout=1800)
 
 
+def c14(ctx):
+    ctx.gotest("tracer", "^TestVerifC14", race=True, timeout=2400)
+
+
 SPECS = {
+    "C14": {"fn": c14, "level": "fault_enumeration",
+            "technique": "runtime monitoring under the race detector: scripted reader/writer partitions and every truncation point through the real tracingReader / TracingHandler with a recording Collector; oracle = envelope event model + differential run without tracing",
+            "text": "Generated envelope sequences (all flag values, zero lengths, end-stream compressed or not in each of the six encodings, Connect/gRPC/gRPC-Web/non-stream content types) are pushed through the real tracing reader and response writer under seven partition plans and every cut/fail offset; the delivered Trace.Events are compared with an independent event model and the application-visible bytes, (n, err) results, status, headers and trailers with an untraced run.",
+            "note": "A cut exactly after a complete prefix is unconstrained (statement says part-way); an empty end-stream yields no content event; independent decompression uses the algorithm libraries directly.",
+            "assumptions": ["envelope event model in harness/tracer/c14_body_test.go"]},
     "C09": {"fn": c09, "level": "fault_enumeration",
             "technique": "runtime monitoring under the race detector: scripted hostile reader (partition plans, every truncation offset, oversize prefixes, stall points) feeding the real ReadDelimitedMessage / StreamDecoders; oracle = framing model",
             "text": "For each sampled message sequence every truncation offset of the byte stream is injected under seven partition plans (with data+EOF and (0,nil) reads), through the runner's ReadDelimitedMessage and both StreamDecoder variants; oversize prefixes must be rejected with <1MB allocated and only the prefix consumed; stall points must yield a timeout no earlier than configured that reports the exact progress. Fault enumeration is exhaustive over offsets per sequence; sequences are sampled.",
